@@ -23,7 +23,11 @@ import (
 )
 
 // Ev is one concrete event.  K: "init" (A=force), "resp" (A=k-th newest initiation, B=ref index),
-// "cr" (A=ref index), "recv" (A=session id), "send", "tick" (A=seconds).
+// "cr" (A=ref index), "recv" (A=session id), "send", "tick" (A=seconds),
+// "forge" (A=session id, B=variant: transport with that session's device index and a fresh counter that does
+// not authenticate), "replay" (A=session id: the last message sent under it, again),
+// "idle" (A=milliseconds the ages are shifted by, B=whole seconds: then REAL time passes, with the
+// socket idle, until the ages are B s + a margin; the model sees Tick B).
 type Ev struct {
 	K string `json:"k"`
 	A uint64 `json:"a,omitempty"`
@@ -79,6 +83,10 @@ type runner struct {
 	ncr      int
 	slow     bool
 	start    time.Time
+	lastMsg  map[uint64][]byte // last authentic message sent under each session
+	idle     bool              // the scenario contains real idle time: judged by margins, not by wall time
+	margin   bool              // a whole-second margin was not kept
+	limit    time.Duration     // after the idle period the reference key must stay younger than this
 }
 
 func newRunner() (*runner, error) {
@@ -88,7 +96,7 @@ func newRunner() (*runner, error) {
 		return nil, err
 	}
 	w.Timeout = time.Second
-	return &runner{w: w, p: p, pk: cosim.NoisePK(p.Pub), ord: map[uint32]uint64{}, tsBase: time.Now(), start: time.Now()}, nil
+	return &runner{w: w, p: p, pk: cosim.NoisePK(p.Pub), ord: map[uint32]uint64{}, tsBase: time.Now(), start: time.Now(), lastMsg: map[uint64][]byte{}}, nil
 }
 
 func (r *runner) close() { r.w.Close() }
@@ -111,6 +119,14 @@ var dataOut = ref.IPv4([4]byte{10, 9, 9, 9}, [4]byte{10, 0, 0, 2}, 40, 9)
 // do performs one event and returns the observation.
 func (r *runner) do(e Ev) Obs {
 	var out cosim.Out
+	if r.idle {
+		switch e.K {
+		case "init", "resp", "cr", "idle":
+			r.margin = true // new keys after real idle time: whole-second ages no longer controlled
+		case "tick":
+			r.limit += time.Duration(e.A) * time.Second
+		}
+	}
 	switch e.K {
 	case "init":
 		if e.A != 0 {
@@ -149,10 +165,48 @@ func (r *runner) do(e Ev) Obs {
 		r.sessions = append(r.sessions, sess)
 	case "recv":
 		if int(e.A) < len(r.sessions) && r.sessions[e.A] != nil {
-			out = r.w.Inject(r.p.Addr, r.sessions[e.A].Next(dataIn))
+			msg := r.sessions[e.A].Next(dataIn)
+			r.lastMsg[e.A] = msg
+			out = r.w.Inject(r.p.Addr, msg)
 		} else {
 			out = r.w.Take()
 		}
+	case "forge":
+		if int(e.A) < len(r.sessions) && r.sessions[e.A] != nil {
+			sess := r.sessions[e.A]
+			msg := sess.Next(dataIn) // right index, fresh counter
+			switch e.B % 4 {
+			case 0: // corrupted tag
+				msg[len(msg)-1] ^= 0x40
+			case 1: // corrupted ciphertext
+				msg[16+int(e.B/4)%(len(msg)-32)] ^= 0x01
+			case 2: // garbage payload of keepalive size
+				msg = msg[:32]
+				for i := 16; i < 32; i++ {
+					msg[i] = byte(37*i + int(e.B))
+				}
+			case 3: // sealed under another key (the session's receiving key)
+				wrong := *sess
+				wrong.SendKey = sess.RecvKey
+				msg = wrong.Transport(sess.SendCtr-1, dataIn)
+			}
+			out = r.w.Inject(r.p.Addr, msg)
+		} else {
+			out = r.w.Take()
+		}
+	case "replay":
+		if msg, ok := r.lastMsg[e.A]; ok {
+			out = r.w.Inject(r.p.Addr, append([]byte{}, msg...))
+		} else {
+			out = r.w.Take()
+		}
+	case "idle":
+		r.idleBegin(e)
+		for !r.idleReady(e) {
+			time.Sleep(5 * time.Millisecond)
+		}
+		out = r.w.Take()
+		return r.observe(out)
 	case "send":
 		out = r.w.TunIn(dataOut)
 	case "tick":
@@ -167,6 +221,59 @@ func (r *runner) do(e Ev) Obs {
 		r.slow = true
 	}
 	return r.observe(out)
+}
+
+// idleBegin shifts all ages by e.A milliseconds; from here on the socket must stay idle.
+func (r *runner) idleBegin(e Ev) {
+	r.idle = true
+	r.limit = time.Duration(e.B+1)*time.Second - 40*time.Millisecond
+	d := time.Duration(e.A) * time.Millisecond
+	r.w.Dev.VerifShiftKeypairAges(r.pk, d)
+	r.w.Dev.VerifShiftHandshakeTimes(r.pk, d)
+}
+
+// refAge is the age of the key the idle period is about (current, else next, else previous).
+func (r *runner) refAge() (time.Duration, bool) {
+	st := r.w.Dev.VerifPeer(r.pk)
+	for _, k := range []device.VerifKeypair{st.Current, st.Next, st.Previous} {
+		if k.Present {
+			return time.Duration(k.AgeNanos), true
+		}
+	}
+	return 0, false
+}
+
+// idleReady reports that real time has carried the key past e.B whole seconds (+ 60 ms).
+func (r *runner) idleReady(e Ev) bool {
+	a, ok := r.refAge()
+	return !ok || a >= time.Duration(e.B)*time.Second+60*time.Millisecond
+}
+
+// checkMargins: in a scenario with real idle time every age must stay clear of a whole second.
+func (r *runner) checkMargins() {
+	if !r.idle {
+		return
+	}
+	st := r.w.Dev.VerifPeer(r.pk)
+	x := r.w.Dev.VerifC07Extra(r.pk)
+	ages := []int64{}
+	for _, k := range []device.VerifKeypair{st.Current, st.Next, st.Previous} {
+		if k.Present {
+			ages = append(ages, k.AgeNanos)
+		}
+	}
+	if !x.LastSentZero {
+		ages = append(ages, x.LastSentAgeNanos)
+	}
+	if a, ok := r.refAge(); ok && r.limit > 0 && a > r.limit {
+		r.margin = true
+	}
+	for _, a := range ages {
+		f := a % 1e9
+		if a >= 1e9 && f < 3e7 || f > 9.7e8 { // (younger than a second: whole seconds = 0 for sure)
+			r.margin = true
+		}
+	}
 }
 
 func slotOf(r *runner, k device.VerifKeypair) Slot {
@@ -222,6 +329,7 @@ func (r *runner) observe(out cosim.Out) Obs {
 	if !x.LastSentZero {
 		o.Last = x.LastSentAgeNanos / 1e9
 	}
+	r.checkMargins()
 	return o
 }
 
@@ -242,6 +350,11 @@ const (
 	aRespondNow
 	aRecvUnaccepted
 	aTickEdge
+	aForgePrev
+	aForgeCur
+	aForgeNext
+	aForgeRetired
+	aReplay
 )
 
 func (r *runner) sidOfIndex(idx uint32) (uint64, bool) {
@@ -302,6 +415,33 @@ func (r *runner) resolve(kind int, arg uint64, rnd *rand.Rand) []Ev {
 			return []Ev{{K: "recv", A: cands[0]}}
 		}
 		return []Ev{{K: "recv", A: cands[rnd.Intn(len(cands))]}}
+	case aForgePrev, aForgeCur, aForgeNext, aReplay:
+		k := map[int]device.VerifKeypair{aForgePrev: st.Previous, aForgeCur: st.Current, aForgeNext: st.Next, aReplay: st.Current}[kind]
+		if kind == aReplay && rnd != nil && rnd.Intn(2) == 0 {
+			k = st.Previous
+		}
+		evs := slot(k)
+		if evs == nil {
+			return nil
+		}
+		if kind == aReplay {
+			return []Ev{{K: "replay", A: evs[0].A}}
+		}
+		v := arg
+		if rnd != nil {
+			v = uint64(rnd.Intn(64))
+		}
+		return []Ev{{K: "forge", A: evs[0].A, B: v}}
+	case aForgeRetired:
+		evs := r.resolve(aRecvUnaccepted, 0, rnd)
+		if evs == nil {
+			return nil
+		}
+		v := arg
+		if rnd != nil {
+			v = uint64(rnd.Intn(64))
+		}
+		return []Ev{{K: "forge", A: evs[0].A, B: v}}
 	case aSend:
 		return []Ev{{K: "send"}}
 	case aTick:
@@ -359,9 +499,69 @@ func (r *runner) finish(c *Case) {
 	c.WallUs = wall.Microseconds()
 	if r.slow {
 		c.Discard = "a step did not settle"
+	} else if r.idle {
+		if r.margin {
+			c.Discard = "idle scenario: a whole-second margin was not kept"
+		}
 	} else if wall > maxWall {
 		c.Discard = "scenario took longer than 0.9 s"
 	}
+}
+
+// idleRun is a scenario with real idle time in the middle, finished when the time has passed.
+type idleRun struct {
+	r    *runner
+	c    Case
+	e    Ev
+	rest []Ev
+}
+
+// The key crosses 180 s while the receive routine sleeps: shifted to 179.5 s, then real time.
+var idleScenarios = []struct {
+	gen    string
+	prefix []Ev
+	rest   []Ev
+}{
+	{"idle-responder-key", []Ev{{K: "cr", A: 4096}, {K: "recv", A: 0}}, []Ev{{K: "recv", A: 0}, {K: "recv", A: 0}, {K: "send"}}},
+	{"idle-initiator-key", []Ev{{K: "init", A: 1}, {K: "resp", A: 0, B: 4096}, {K: "recv", A: 0}}, []Ev{{K: "recv", A: 0}, {K: "recv", A: 0}}},
+	{"idle-unconfirmed-key", []Ev{{K: "cr", A: 4096}}, []Ev{{K: "recv", A: 0}, {K: "send"}}},
+}
+
+func startIdle(gen string, prefix, rest []Ev) *idleRun {
+	r, err := newRunner()
+	if err != nil {
+		panic(err)
+	}
+	ir := &idleRun{r: r, c: Case{Gen: gen, Obs: []Obs{}, Evs: []Ev{}}, e: Ev{K: "idle", A: 179500, B: 180}, rest: rest}
+	for _, e := range prefix {
+		ir.c.Evs = append(ir.c.Evs, e)
+		ir.c.Obs = append(ir.c.Obs, r.do(e))
+	}
+	r.idleBegin(ir.e)
+	return ir
+}
+
+// tryFinish completes the scenario if the idle time has passed (or waits for it).
+func (ir *idleRun) tryFinish(block bool) (Case, bool) {
+	for !ir.r.idleReady(ir.e) {
+		if !block {
+			return Case{}, false
+		}
+		time.Sleep(5 * time.Millisecond)
+	}
+	out := ir.r.w.Take()
+	if !out.Settled {
+		ir.r.slow = true
+	}
+	ir.c.Evs = append(ir.c.Evs, ir.e)
+	ir.c.Obs = append(ir.c.Obs, ir.r.observe(out))
+	for _, e := range ir.rest {
+		ir.c.Evs = append(ir.c.Evs, e)
+		ir.c.Obs = append(ir.c.Obs, ir.r.do(e))
+	}
+	ir.r.finish(&ir.c)
+	ir.r.close()
+	return ir.c, true
 }
 
 type weighted struct {
@@ -371,6 +571,7 @@ type weighted struct {
 var randomMix = []weighted{
 	{aCI, 14}, {aCR, 14}, {aRecvPrev, 7}, {aRecvCur, 9}, {aRecvNext, 8}, {aRecvRetired, 6}, {aRecvUnaccepted, 3},
 	{aSend, 14}, {aTick, 6}, {aTickEdge, 12}, {aInitiate, 4}, {aRespondStale, 2}, {aRespondNow, 3},
+	{aForgeNext, 7}, {aForgeCur, 3}, {aForgePrev, 2}, {aForgeRetired, 2}, {aReplay, 3},
 }
 
 var tickChoices = []uint64{1, 4, 6, 45, 61, 119, 121, 164, 166, 179, 181}
@@ -459,10 +660,11 @@ type absEv struct {
 	arg  uint64
 }
 
-var alphabet7 = []absEv{{aCI, 0}, {aCR, 0}, {aRecvPrev, 0}, {aRecvCur, 0}, {aRecvNext, 0}, {aRecvRetired, 0}, {aSend, 0}, {aTick, 61}, {aTick, 121}}
+var alphabet7 = []absEv{{aCI, 0}, {aCR, 0}, {aRecvPrev, 0}, {aRecvCur, 0}, {aRecvNext, 0}, {aRecvRetired, 0}, {aSend, 0}, {aTick, 61}, {aTick, 121}, {aForgeNext, 0}}
 
 // the extended alphabet: also short ticks (5 s spacing), timer-style initiation, stale response
-var alphabetFull = append(append([]absEv{}, alphabet7...), absEv{aTick, 4}, absEv{aTick, 45}, absEv{aInitiate, 0}, absEv{aRespondStale, 0}, absEv{aRespondNow, 0})
+var alphabetFull = append(append([]absEv{}, alphabet7...), absEv{aTick, 4}, absEv{aTick, 45}, absEv{aInitiate, 0}, absEv{aRespondStale, 0}, absEv{aRespondNow, 0},
+	absEv{aForgeNext, 0}, absEv{aForgeNext, 2}, absEv{aForgeCur, 3}, absEv{aReplay, 0})
 
 // exhaustive enumerates all sequences over the alphabet to the given depth, up to the
 // abstract state reached: every (representative prefix, event) pair is run on a fresh device.
@@ -544,6 +746,12 @@ func stepInts(e Ev, o Obs) []uint64 {
 		k = 4
 	case "tick":
 		k, a = 5, e.A
+	case "idle":
+		k, a = 5, e.B // the model sees the whole seconds that have passed
+	case "forge":
+		k, a = 6, e.A
+	case "replay":
+		k, a = 7, e.A
 	}
 	v := []uint64{k, a, b, optInt(o.Init), b2i(o.Resp), b2i(o.Tun)}
 	for _, s := range []Slot{o.Prev, o.Cur, o.Next} {
@@ -655,6 +863,24 @@ func main() {
 			info["exhaustive_ext_states"] = reps
 			info["exhaustive_ext_truncated"] = trunc
 		}
+		// scenarios with real idle time: started now, finished between the other scenarios
+		var pending []*idleRun
+		if *n > 0 {
+			for _, sc := range idleScenarios {
+				pending = append(pending, startIdle(sc.gen, sc.prefix, sc.rest))
+			}
+		}
+		poll := func(block bool) {
+			var still []*idleRun
+			for _, ir := range pending {
+				if c, ok := ir.tryFinish(block); ok {
+					cases = append(cases, c)
+				} else {
+					still = append(still, ir)
+				}
+			}
+			pending = still
+		}
 		rnd := rand.New(rand.NewSource(*seed))
 		for i := 0; i < *n; i++ {
 			d := *depth
@@ -662,7 +888,9 @@ func main() {
 				d = 3 + rnd.Intn(*depth)
 			}
 			cases = append(cases, runRandom(rnd, d))
+			poll(false)
 		}
+		poll(true)
 		for i := 0; i < *nlong; i++ {
 			cases = append(cases, runRandom(rnd, *longDepth))
 		}
